@@ -8,10 +8,17 @@ pub mod c03;
 pub mod c04;
 pub mod fwmon;
 pub mod c05;
+pub mod c06;
 pub mod c07;
 pub mod c08;
 pub mod c09;
 pub mod c10;
+pub mod c14;
+pub mod c15;
+pub mod c16;
+pub mod c19;
+pub mod sim;
+pub mod simtl;
 pub mod c05x;
 pub mod c20;
 
@@ -23,10 +30,17 @@ pub fn make(name: &str, tier: Tier) -> Option<Box<dyn Prop>> {
         "c03" => Box::new(c03::C03::default()),
         "c04" => Box::new(c04::C04::default()),
         "c05" => Box::new(c05::C05::default()),
+        "c06" => Box::new(c06::C06::default()),
         "c07" => Box::new(c07::C07::default()),
         "c08" => Box::new(c08::C08::default()),
         "c09" => Box::new(c09::C09::default()),
         "c10" => Box::new(c10::C10::default()),
+        "c14" => Box::new(c14::C14::default()),
+        "c15" => Box::new(c15::C15::default()),
+        "c16" => Box::new(c16::SimTl { prop: 16 }),
+        "c17" => Box::new(c16::SimTl { prop: 17 }),
+        "c18" => Box::new(c16::SimTl { prop: 18 }),
+        "c19" => Box::new(c19::C19::default()),
         "c05x" => Box::new(c05x::C05x::default()),
         _ => return None,
     })
